@@ -76,6 +76,11 @@ def r1(ctx, facts, cfg):
         not g.exists_path([tnode(g, b)], [tnode(g, b)], avoid_nodes=pop, avoid_edges=[(b, l)]) for (b, l) in edges)
     ctx.ob("C07.R1c", "_exit:iteration-reads-and-processes", ok,
            "every iteration that does not leave re-reads the frontend queues (and dispatches cached events) before testing again", fn=f)
+    r1d(ctx, facts, cfg)
+
+
+def r1d(ctx, facts, cfg, rule="C07.R1d"):
+    """what 'everything is drained' means (shared: C17 erases a logger and C20 reclaims a context on this predicate)"""
     e = facts.need(BW + "_check_frontend_queues_and_cached_transit_events_empty", cfg)[0]
     eg = e.g
     rets = eg.return_nodes()
@@ -102,7 +107,7 @@ def r1(ctx, facts, cfg):
         early = [x for lp in loops for x in walk(lp.get("body")) if x["k"] in ("BreakStmt", "ReturnStmt", "GotoStmt", "ContinueStmt")]
         refresh = bool(e.calls(r"::_update_active_thread_contexts_cache$"))
         ok = kinds == {"U", "B", "T"} and not others and bool(loops) and not early and refresh
-    ctx.ob("C07.R1d", "_check_frontend_queues_and_cached_transit_events_empty:covers-everything", ok,
+    ctx.ob(rule, "_check_frontend_queues_and_cached_transit_events_empty:covers-everything", ok,
            "'empty' is the conjunction over every (freshly reloaded) thread context of queue.empty() for both queue kinds and "
            "transit-buffer.empty(): %s" % sorted(kinds), fn=e)
 
